@@ -70,7 +70,7 @@ class Consts:
         self.hi_byte = hi_byte
         # which of the repairs proposed in findings/C05.proposed.json the tree under test carries (the model
         # follows repaired code): subset of {"wap", "gemini", "spartan"}; set when a fix: commit lands
-        self.fixes = ["wap", "gemini", "mapfile"]
+        self.fixes = ["wap", "gemini", "mapfile", "spartan"]
         if os.environ.get("VERIF_C05_FIXES") is not None:        # development: try a proposed repair in a scratch copy
             self.fixes = [x for x in os.environ["VERIF_C05_FIXES"].split(",") if x]
 
